@@ -1,7 +1,8 @@
 (* Property theorems only: statement / exact <lemma> / Print Assumptions.
    The per-property list of theorem names the check insists on is coq/obligations.json. *)
 From Coq Require Import ZArith List.
-From Cqos Require Import RateConv RateConvP.
+From Coq Require Import NArith.
+From Cqos Require Import Base RateConv RateConvP Divider DividerP Sched Float64 Utils UtilsP.
 Open Scope Z_scope.
 
 (* ---------------------------------------------------------------- C13 *)
@@ -19,3 +20,92 @@ Theorem C13_refuted_old : exists r m, in_range r m /\ is_valid r = None /\ 0 <= 
   exists r', recalculate_old r m = inl r' /\ is_valid r' <> None.
 Proof. exact refuted_old. Qed.
 Print Assumptions C13_refuted_old.
+
+(* ---------------------------------------------------------------- C14 *)
+Open Scope N_scope.
+(* conservation: Fair and Rate (with ANY rounding function, hence also float64) add exactly the dividend *)
+Theorem C14_fair_conserves : forall ps dividend d, ps <> nil -> NoDup (keys d) ->
+  sum (fair ps dividend d) = sum d + dividend.
+Proof. exact fair_conserves. Qed.
+Print Assumptions C14_fair_conserves.
+Theorem C14_rate_conserves : forall part ps dividend d, ps <> nil -> NoDup (keys d) ->
+  sum (rate part ps dividend d) = sum d + dividend.
+Proof. exact rate_conserves. Qed.
+Print Assumptions C14_rate_conserves.
+(* nothing outside the listed priorities changes *)
+Theorem C14_fair_outside : forall ps dividend d q, NoDup ps -> ~ In q ps -> get (fair ps dividend d) q = get d q.
+Proof. exact fair_outside. Qed.
+Print Assumptions C14_fair_outside.
+Theorem C14_rate_outside : forall part ps dividend d q, NoDup ps -> ~ In q ps -> get (rate part ps dividend d) q = get d q.
+Proof. exact rate_outside. Qed.
+Print Assumptions C14_rate_outside.
+(* Fair: the i-th listed priority receives base + (1 if i < remainder), so increments differ by at most one and
+   the extra units go to a prefix of the list (the highest priorities) *)
+Theorem C14_fair_increment : forall ps dividend d i, NoDup ps -> (i < length ps)%nat ->
+  get (fair ps dividend d) (nth i ps 0) = get d (nth i ps 0) + fair_inc (fair_base ps dividend) (fair_rem ps dividend) i.
+Proof. exact fair_increment. Qed.
+Print Assumptions C14_fair_increment.
+Theorem C14_fair_shape : forall base rem i j, (i <= j)%nat ->
+  fair_inc base rem j <= fair_inc base rem i <= fair_inc base rem j + 1.
+Proof. exact fair_shape. Qed.
+Print Assumptions C14_fair_shape.
+(* Rate: the i-th listed priority receives rate_incs[i]; they sum to the dividend and are non-increasing for any
+   rounding function that is monotone in the priority *)
+Theorem C14_rate_increment : forall part ps dividend d i, NoDup ps -> (i < length ps)%nat ->
+  get (rate part ps dividend d) (nth i ps 0) = get d (nth i ps 0) + nth i (rate_incs part ps dividend) 0.
+Proof. exact rate_increment. Qed.
+Print Assumptions C14_rate_increment.
+Theorem C14_rate_incs_sum : forall part ps dividend, ps <> nil -> sum_list (rate_incs part ps dividend) = dividend.
+Proof. exact rate_incs_sum. Qed.
+Print Assumptions C14_rate_incs_sum.
+Theorem C14_rate_monotone : forall part, (forall d0 S p q, q <= p -> part d0 S q <= part d0 S p) ->
+  forall ps dividend, nonincreasing ps -> nonincreasing (rate_incs part ps dividend).
+Proof. exact rate_incs_nonincreasing. Qed.
+Print Assumptions C14_rate_monotone.
+Theorem C14_part_q_monotone : forall d0 S p q, q <= p -> part_q d0 S q <= part_q d0 S p.
+Proof. exact part_q_mono. Qed.
+Print Assumptions C14_part_q_monotone.
+Theorem C14_v1_eq_v2 : forall dv ps dividend d, ps <> nil -> v1_call dv ps dividend (Some d) = v2_call dv ps dividend (Some d).
+Proof. exact v1_eq_v2. Qed.
+Print Assumptions C14_v1_eq_v2.
+
+(* ---------------------------------------------------------------- C18 *)
+Theorem C18_combinations : forall ps c, In c (gen_combinations ps) <-> c <> nil /\ sublist c ps.
+Proof. exact gen_combinations_spec. Qed.
+Print Assumptions C18_combinations.
+Theorem C18_combinations_count : forall ps, N.of_nat (length (gen_combinations ps)) + 1 = 2 ^ N.of_nat (length ps).
+Proof. exact gen_combinations_length. Qed.
+Print Assumptions C18_combinations_count.
+Theorem C18_nonfatal_iff : forall ps dv q,
+  is_nonfatal ps dv q = true <->
+  forall c, c <> nil -> sublist c (sort_desc ps) -> forall p, In p c -> 1 <= get (dv c q nil) p.
+Proof. exact nonfatal_iff. Qed.
+Print Assumptions C18_nonfatal_iff.
+Theorem C18_pick_min : forall pred max, let r := pick_min pred max in
+  (r = 0 /\ forall k, 1 <= k <= max -> pred k = false) \/
+  (1 <= r <= max /\ pred r = true /\ forall k, 1 <= k < r -> pred k = false).
+Proof. exact pick_min_spec. Qed.
+Print Assumptions C18_pick_min.
+Theorem C18_pick_max : forall pred max, let r := pick_max pred max in
+  (r = 0 /\ forall k, 1 <= k <= max -> pred k = false) \/
+  (1 <= r <= max /\ pred r = true /\ forall k, r < k <= max -> pred k = false).
+Proof. exact pick_max_spec. Qed.
+Print Assumptions C18_pick_max.
+Theorem C18_suitable_implies_nonfatal : forall ps dv q limit, is_suitable ps dv q limit = true -> is_nonfatal ps dv q = true.
+Proof. exact suitable_implies_nonfatal. Qed.
+Print Assumptions C18_suitable_implies_nonfatal.
+Theorem C18_suitable_monotone : forall ps dv q l1 l2, (forall x, fgt x l2 = true -> fgt x l1 = true) ->
+  is_suitable ps dv q l1 = true -> is_suitable ps dv q l2 = true.
+Proof. exact suitable_monotone. Qed.
+Print Assumptions C18_suitable_monotone.
+Theorem C18_nonfatal_accepted : forall ps dv q, ps <> nil -> q < two64 ->
+  (forall c, c <> nil -> sum (dv c q nil) = q) -> is_nonfatal ps dv q = true ->
+  exists st, prepare_v2 dv ps q = inl (sort_desc ps, st) /\ forall p, In p ps -> 1 <= get st p.
+Proof. exact nonfatal_accepted. Qed.
+Print Assumptions C18_nonfatal_accepted.
+(* regression about the pinned code: a zero share judged non-fatal (absent map keys were ignored) *)
+Theorem C18_refuted_old :
+  is_nonfatal_old (7 :: 5 :: 3 :: 1 :: nil) (rate part_q) 8 = true /\ get (rate part_q (7 :: 5 :: 3 :: 1 :: nil) 8 nil) 1 = 0 /\
+  is_nonfatal (7 :: 5 :: 3 :: 1 :: nil) (rate part_q) 8 = false.
+Proof. exact refuted_old_nonfatal. Qed.
+Print Assumptions C18_refuted_old.
